@@ -83,3 +83,19 @@ def replay(chk, binary, scripts, tag="", variant=""):
         return [r for r in rows[:-1] if not r.get("lab")], summ
     finally:
         shutil.rmtree(wd, ignore_errors=True)
+
+
+def replay_one(chk, binary, script):
+    """Re-run one archived script (the 'script13f' fact of a replay file); returns (rows, summary)."""
+    wd = vlib.scratch("hsr13f1")
+    try:
+        inp, out = os.path.join(wd, "in"), os.path.join(wd, "out")
+        open(inp, "w").write(json.dumps(script) + "\n")
+        rc, txt = vlib.run_test(binary, "TestVerifHs13FScripts", {"VERIF_IN": inp, "VERIF_OUT": out})
+        if rc != 0 or not os.path.exists(out):
+            raise vlib.Inconclusive("fragmented-flight replay harness failed: %s" % txt[-2000:])
+        rows = vlib.read_ndjson(out)
+        chk.evaluated(key="replay13f")
+        return rows[:-1], rows[-1]
+    finally:
+        shutil.rmtree(wd, ignore_errors=True)
